@@ -26,7 +26,7 @@ theorem TEq.setFut (st : State) (f : Nat) (v : FutSt) : TEq st (st.setFut f v) :
 theorem TEq.schedule (st : State) (h : Handle) (hh : ∀ s, h ≠ Handle.timeout s) :
     TEq st (st.schedule h) := by
   refine ⟨rfl, rfl, fun _ => rfl, fun _ => rfl, fun s => ?_, fun _ => SEq.refl _⟩
-  simp [List.count_append, List.count_singleton, hh s]
+  simp [List.count_append, hh s]
 
 theorem TEq.setScope (st : State) (s : Nat) (f : Scope → Scope) (hf : ∀ x, SEq x (f x)) :
     TEq st (st.setScope s f) := by
